@@ -32,7 +32,8 @@ P = {'id': 'C16',
               'deadlock_free',
               'mutex_free_at_quiescence',
               'counters_exact_at_rest',
-              'drain_empties'],
+              'drain_empties',
+              'counters_bounded_always'],
  'trusted': ['modelled (M+S): src/fsa/version_sync.rs VersionManager::{acquire_reader_token, acquire_writer_token, release_reader_token, '
              'release_writer_token, try_advance_min_version} one shared access per step in the code\'s order, token_chain_mutex as an owner field, '
              'LazyFreeList::process_safe_items / LazyFreeItem::can_free; src/fsa/token.rs TokenManager::{acquire_*_token, return_*_token, '
